@@ -143,6 +143,11 @@ def gen_thread(rng, t, max_ops):
       if depth < 2 and rng.random() < 0.6:
         ops.append({'op': 'suspend_enter'})
         depth += 1
+        if depth == 1 and rng.random() < 0.35:
+          # a nested block that is entered and left at once, then the outer one
+          # is left too: whatever follows is tracked again
+          ops += [{'op': 'suspend_enter'}, {'op': 'suspend_exit'}, {'op': 'suspend_exit'}]
+          depth = 0
       else:
         ops.append({'op': 'suspend_exit'})
         depth = max(0, depth - 1)
